@@ -6,6 +6,7 @@
 mod conv;
 mod r#gen;
 mod lin;
+mod doors;
 mod total;
 mod rewrite;
 mod text;
@@ -223,6 +224,13 @@ fn main() {
             let cases = read_cases(&arg(&args, "--cases").expect("--cases"));
             for c in &cases {
                 writeln!(out, "{}", text::typecheck_event(c)).unwrap();
+            }
+        }
+        // doors --cases F : one abstract model through builder, text, API constants, pipes, one-shot (C16)
+        "doors" => {
+            let cases = read_cases(&arg(&args, "--cases").expect("--cases"));
+            for c in &cases {
+                writeln!(out, "{}", doors::doors_event(c)).unwrap();
             }
         }
         _ => {
